@@ -243,6 +243,7 @@ def work_logic(lname):
     # classical family: self-identity / non-existence literals on the real rules (ground)
     if len(sem.values) == 2:
         results += classical_literals(logic, funcs)
+        results += cross_world_obligations(logic)
     return results, funcs
 
 def classical_cases():
@@ -281,6 +282,56 @@ def run_classical_case(logic, label, mk, want):
     for s in sents: br2.append(swnode(s, w))
     tab2.build()
     return (bool(fired) == want and br2.closed == want), fired, br2.closed
+
+def cross_world_cases():
+    "open literal sets of the classical modal family whose literals live at different worlds: the model builder must read off satisfying values"
+    from pytableaux.lang import Predicate, Constant, Atomic
+    m, n = Constant(0, 0), Constant(1, 0)
+    I, E, F = Predicate.Identity, Predicate.Existence, Predicate(0, 0, 1)
+    A = Atomic(0, 0)
+    return [('m=n@0, Fm@1, ~Fn@1', [(I((m, n)), 0), (F(m), 1), (~F(n), 1)], [(0, 1)]),
+            ('m=n@1, Fm@0, ~Fn@0', [(I((m, n)), 1), (F(m), 0), (~F(n), 0)], [(0, 1)]),
+            ('Fm@0, ~Fm@1', [(F(m), 0), (~F(m), 1)], [(0, 1)]),
+            ('A@0, ~A@1, m=n@1, Fn@1', [(A, 0), (~A, 1), (I((m, n)), 1), (F(n), 1)], [(0, 1)]),
+            ('~m=n@0, m=n@1', [(~I((m, n)), 0), (I((m, n)), 1)], [(0, 1)])]
+
+def run_cross_world(logic, label, lits, access):
+    from pytableaux.proof import Tableau, swnode, anode
+    from bounded import prover as P
+    sem = S.spec_of(logic.Meta.name)
+    t = Tableau(logic, is_build_models=True); b = t.branch()
+    for s, w in lits: b.append(swnode(s, w))
+    for w1, w2 in access: b.append(anode(w1, w2))
+    try: t.build()
+    except Exception as e: return f'build() raises {type(e).__name__}: {e}'
+    if not t.open: return None                      # the rules closed it: nothing is claimed about a closed set here
+    from spec.evaluate import datum_of_model
+    for b in t.open:
+        try:
+            m = b.model
+            if m is None:
+                m = logic.Model(); m.read_branch(b)
+                if not m.finished: m.finish()
+            d = datum_of_model(m, sem)
+        except Exception as e: return f'reading the model raises {type(e).__name__}: {e}'
+        for nd in b:
+            s_ = nd.get('sentence')
+            if s_ is None: continue
+            w = nd.get('world') or 0
+            try: v = d.value(s_, w); rv = m.value_of(s_, world=w)
+            except Exception as e: return f'evaluating {s_} at world {w} raises {type(e).__name__}: {e}'
+            if v != S.T or rv.name != 'T': return f'the model read from the open branch gives {s_} at world {w} the value {S.NAME[v]} (its own evaluator: {rv.name})'
+    return None
+
+def cross_world_obligations(logic):
+    L = logic.Meta.name
+    out = []
+    if not (logic.Meta.modal and len(S.spec_of(L).values) == 2): return out
+    for label, lits, access in cross_world_cases():
+        why = run_cross_world(logic, label, lits, access)
+        out.append(discharge(enum_ob(f'C05.{L}.classical.cross-world.[{label}]', why is None, logic=L, literals=label, kind='cross-world', cex=dict(why=why) if why else None,
+                                     clause='literals at different worlds of an open classical branch (identity at one world, predications at another): the model builder reads values that satisfy all of them')))
+    return out
 
 def classical_literals(logic, funcs):
     """F: drive the real closure rules on real one/two-node branches for identity/existence literals; primed constants are
@@ -344,6 +395,12 @@ def replay(payload):
     L = meta.get('logic')
     lits = cex.get('literals') or meta.get('literals')
     if not L: return dict(reproduced=None, detail='no logic in payload')
+    if meta.get('kind') == 'cross-world':
+        from pytableaux.logics import registry as _reg
+        for label, lits_, access in cross_world_cases():
+            if label == meta.get('literals'):
+                why = run_cross_world(_reg(L), label, lits_, access)
+                return dict(reproduced=bool(why), detail=why or 'the open branch has a model that satisfies it')
     if meta.get('literals') in ('pred', 'opaque-modal', 'opaque-quantified'):
         return replay_kind(L, meta['literals'])
     if not lits and 'arriving' in cex: lits = f"{cex['present']},{cex['arriving']}"
